@@ -275,9 +275,27 @@ func (x *wireExec) materialise(w *WireScript, key []byte, limit int64) ([]byte, 
 	return out, nil
 }
 
+// dlConn is the node's end of the pipe; it remembers whether the node has a read deadline
+// armed (recorded as evidence: a read without deadline lasts as long as the remote likes).
+type dlConn struct {
+	net.Conn
+	readArmed int32
+}
+
+func (c *dlConn) note(t time.Time) {
+	v := int32(1)
+	if t.IsZero() {
+		v = 0
+	}
+	atomic.StoreInt32(&c.readArmed, v)
+}
+func (c *dlConn) SetDeadline(t time.Time) error     { c.note(t); return c.Conn.SetDeadline(t) }
+func (c *dlConn) SetReadDeadline(t time.Time) error { c.note(t); return c.Conn.SetReadDeadline(t) }
+
 // srvSide is the node's end of one connection, driven like p2p.Server drives it.
 type srvSide struct {
 	peer     p2p.IPeer
+	conn     *dlConn
 	hsErr    chan error    // result of DoHandshake
 	runDone  chan struct{} // Peer.Run returned
 	consumed chan struct{} // consumer goroutine ended
@@ -290,12 +308,13 @@ type srvSide struct {
 // it is the dialler (DialManager.runDialTask -> HandleConn(conn, nodeID)).
 func (x *wireExec) serve(sconn net.Conn, remote *p2p.NodeID) *srvSide {
 	sv := &srvSide{hsErr: make(chan error, 1), runDone: make(chan struct{}), consumed: make(chan struct{})}
-	sv.peer = p2p.NewPeer(sconn)
+	sv.conn = &dlConn{Conn: sconn}
+	sv.peer = p2p.NewPeer(sv.conn)
 	go func() {
 		// Server.HandleConn
 		err := sv.peer.DoHandshake(x.nodeKey.Priv, remote)
 		if err != nil {
-			_ = sconn.Close()
+			_ = sv.conn.Close()
 			sv.hsErr <- err
 			close(sv.runDone)
 			close(sv.consumed)
@@ -423,6 +442,9 @@ func (x *wireExec) exchange(cs *Case, wit interface{}) {
 			outcome = "closed-by-node"
 		} else {
 			outcome = "node-waits"
+			if atomic.LoadInt32(&sv.conn.readArmed) == 0 {
+				x.s.Stat(surface+"_node_waits_without_read_deadline", 1)
+			}
 		}
 	} else {
 		if atomic.LoadInt32(&nodeClosed) != 0 {
